@@ -50,6 +50,14 @@ EQ += [
     ("def f(m, k):\n    if len(m) >= k:\n        m = m.opt()\n    else:\n        raise ValueError('few')\n    return g(m)\n",
      "def f(m, k):\n    enough = len(m) >= k\n    if not enough:\n        raise ValueError('few')\n    m = m.opt()\n    return g(m)\n"),
 ]
+EQ += [
+    ("def f(x):\n    s = x.shape\n    pair = len(s) == 2 and s[1] == 2\n    if len(s) == 3:\n        x = x.T\n    elif not pair:\n        raise ValueError('no')\n    return g(x)\n",
+     "def f(x):\n    s = x.shape\n    if len(s) == 3:\n        x = x.T\n    elif not (len(s) == 2 and s[1] == 2):\n        raise ValueError('no')\n    return g(x)\n"),
+]
+EQ += [
+    ("def f(x, y):\n    s = x.shape\n    if len(s) == 3:\n        y = y.T\n    elif len(s) != 2:\n        raise ValueError('no %s' % str(s))\n    return g(y)\n",
+     "def f(x, y):\n    if len(x.shape) == 3:\n        y = y.T\n    elif len(x.shape) != 2:\n        raise ValueError('no %s' % str(x.shape))\n    return g(y)\n"),
+]
 NE = [
     # a read moved across a write
     ("def f(a, i):\n    x = a[i]\n    a[i] = 0\n    return x\n", "def f(a, i):\n    a[i] = 0\n    x = a[i]\n    return x\n"),
@@ -100,4 +108,7 @@ NE = [
     # ... but not after a statement that may have re-bound it
     ("def f(self):\n    r = self.results\n    self.reset()\n    g(r)\n    return self.results.c\n",
      "def f(self):\n    r = self.results\n    self.reset()\n    g(r)\n    return r.c\n"),
+    # a use after an effect inside a branch is not the value from before the `if`
+    ("def f(a, i, c):\n    t = a[i]\n    if c:\n        a[i] = 0\n        g(t)\n", "def f(a, i, c):\n    if c:\n        a[i] = 0\n        g(a[i])\n"),
+    ("def f(x, c):\n    t = x.shape\n    if c:\n        x = x.T\n        g(t)\n    return x\n", "def f(x, c):\n    if c:\n        x = x.T\n        g(x.shape)\n    return x\n"),
 ]
